@@ -3,6 +3,8 @@ package websocket
 import (
 	"errors"
 	"io"
+
+	"github.com/lesismal/nbio/mempool"
 )
 
 // C12 — message round trip between two real endpoints (no compression).
@@ -383,5 +385,59 @@ func verifHarness_C12_roundtrip_flate_stored_any_content() {
 func verifHarness_C12_roundtrip_flate_levels_T() {
 	verifBound("payloads", 5)
 	verifC12Flate([]int{0, 1, 2, 3, 4}, []int{-2, 0, 1, 6, 9}, []int{1 << 15, 7})
+	verifAssert(false, "witness")
+}
+
+// ---- two connections inflating at the same time. The codec objects come from
+// package-level pools shared by all connections (sync.Pool may hand out any
+// free object); an allocator that yields makes every buffer request inside the
+// inflate loop a scheduling point.
+
+type verifYieldAlloc struct{ mempool.Allocator }
+
+func (a verifYieldAlloc) Malloc(n int) *[]byte { verifYield(); return a.Allocator.Malloc(n) }
+func (a verifYieldAlloc) Append(p *[]byte, more ...byte) *[]byte {
+	verifYield()
+	return a.Allocator.Append(p, more...)
+}
+func (a verifYieldAlloc) Realloc(p *[]byte, n int) *[]byte { verifYield(); return a.Allocator.Realloc(p, n) }
+
+func verifHarness_C12_concurrent_inflate_two_connections() {
+	verifBound("connections", 3)
+	verifBound("preemptions", 1)
+	verifPoolMode(1)
+	wireOf := func(payload []byte) []byte {
+		snd := verifNewEndpoint(false, true, 0, nil)
+		snd.c.enableWriteCompression = true
+		snd.c.compressionLevel = 1
+		if snd.c.WriteMessage(BinaryMessage, payload) != nil {
+			verifFail("write-succeeds", "concurrent-inflate")
+		}
+		return snd.fake.wire()
+	}
+	p0 := []byte("warm-up warm-up warm-up")
+	p1 := []byte("first first first first first first first first")
+	p2 := []byte("SECOND second SECOND second SECOND second SECOND")
+	w0, w1, w2 := wireOf(p0), wireOf(p1), wireOf(p2)
+	small := func() mempool.Allocator { return verifYieldAlloc{mempool.New(8, 1<<20)} }
+	// a first connection receives a message and is done
+	r0 := verifNewEndpoint(true, true, 0, nil)
+	if err := r0.c.Parse(append([]byte(nil), w0...)); err != nil || len(r0.msgs) != 1 {
+		verifFail("warm-up-delivered", "")
+		return
+	}
+	// two more connections inflate concurrently
+	r1 := verifNewEndpoint(true, true, 0, small())
+	r2 := verifNewEndpoint(true, true, 0, small())
+	verifSched(true, 1)
+	var e1, e2 error
+	verifGo(func() { e1 = r1.c.Parse(append([]byte(nil), w1...)) })
+	verifGo(func() { e2 = r2.c.Parse(append([]byte(nil), w2...)) })
+	verifJoin()
+	verifAssertD(e1 == nil && e2 == nil, "receiver-accepts", "concurrent-inflate")
+	verifAssertD(len(r1.msgs) == 1 && len(r2.msgs) == 1, "delivered-exactly-once", "concurrent-inflate")
+	if len(r1.msgs) == 1 && len(r2.msgs) == 1 {
+		verifAssertD(string(r1.msgs[0].data) == string(p1) && string(r2.msgs[0].data) == string(p2), "same-payload", "concurrent-inflate")
+	}
 	verifAssert(false, "witness")
 }
